@@ -5,8 +5,8 @@ Independent of the code under test.  Harmless by construction (BUILDING.md): the
 tokens + the words below: no absolute path, no `..`, no program name; `$ % @ -python sh` are not in the dictionary),
 the token after `$` / `%` (the program) and those two tokens themselves are never deleted / replaced / moved by a
 token-level operator, character-level operators never touch shell / source text, and `gate()` refuses the few texts
-that could make Python's eval() of an INTEGER argument expensive or leave the process (`**` next to a big number,
-`exit (`).
+that could make Python's eval() of an INTEGER argument expensive or reach outside (`**` next to a big number, a
+call of print / input / open / exec / ...).
 
 A *mutant* is a list of ops; an op is {'op': name, 'f': file (0 main, 1 included), 'p': position selector,
 'q': variant selector, 'w': vocabulary selector} - all small integers, interpreted modulo the number of eligible
@@ -73,6 +73,7 @@ INT_BAD = [('1/0', '1/0'), ('1//0', '1//0'), ('1%0', '1%0'), ('"1/ 0"', '1/ 0'),
            ('"b\'\\xff\'.decode()"', "b'\\xff'.decode()"),  # UnicodeDecodeError
            ('"int(\'9\' * 5000)"', "int('9' * 5000)"),  # ValueError: int <- str digit limit
            ('"f\'{10**4300}\'"', "f'{10**4300}'"),  # ValueError: str <- int digit limit
+           ('exit(3)', 'exit(3)'), ('quit()', 'quit()'), ('"exit()"', 'exit()'),  # SystemExit (no Exception)
            ('[].pop()', '[].pop()'), ('{}.popitem()', '{}.popitem()'), ('divmod(1,0)', 'divmod(1,0)'),
            ('int()()', 'int()()'), ('"1 if [][0] else 2"', '1 if [][0] else 2'), ('"(yield)"', '(yield)'),
            ('1j', '1j'), ("b'1'", "b'1'"), ('...', '...'), ('int', 'int'), ('NotImplemented', 'NotImplemented'),
@@ -229,6 +230,10 @@ ENUM_EXTREME = [('TRUE', 'TRUE'), ('True', 'True'), ('False', 'False'), ('pass',
                 ('"PASS"', 'PASS'), ("'file'", 'file'), ('"act"', 'act'), ('-TO-UPPER', '-TO-UPPER'), ("''", ''),
                 ('@[S]@', '@[S]@'), ('true', 'true'), ('file', 'file'), ('PASS', 'PASS'), ('act', 'act'),
                 ('-to-upper', '-to-upper'), ('XFAIL', 'XFAIL'), ('XPASS', 'XPASS'), ('HARD_ERROR', 'HARD_ERROR')]
+# values that are of a kind of their own are tried more often than one in len(vocabulary)
+INT_BAD = INT_BAD + [e for e in INT_BAD if e[1].startswith(('exit(', 'quit('))] * 2
+TMO_BAD = TMO_BAD + [('exit(3)', 'exit(3)'), ('"quit()"', 'quit()')]
+TMO_EXTREME = TMO_EXTREME + [e for e in TMO_EXTREME if e[1].lstrip('-') in ('10**400', '10**4300')]
 # the patterns / names without any component are tried more often
 GLOB_EXTREME = GLOB_EXTREME + [e for e in GLOB_EXTREME if e[1] in ('', '.', './')] * 3
 PATH_EXTREME = PATH_EXTREME + [e for e in PATH_EXTREME if e[1] in ('', '.', 'a' * 300)] * 2
@@ -628,7 +633,8 @@ def parent_texts(doc):
 # ---- the harmlessness gate ---------------------------------------------------------------------------------------------
 _BIG = re.compile(r'10\*\*100|2\*\*6[34]|1<<70|9{20}')
 _POW_OK = re.compile(r'-?10\*\*100|-?2\*\*6[34]|0\*\*-1|2\*\*-1')
-_CALL = re.compile(r'(?<![.\w])(exit|quit|print|input|open|exec|eval|compile|__import__|help|breakpoint)\s*\(')
+# (exit() / quit() raise SystemExit, which the in-process driver catches like any other exception)
+_CALL = re.compile(r'(?<![.\w])(print|input|open|exec|eval|compile|__import__|help|breakpoint)\s*\(')
 _POW1 = re.compile('\x01[\'"\\s]*\\*[\'"\\s]*\\*')
 _POW2 = re.compile('\\*[\'"\\s]*\\*[\'"\\s]*\x01')
 
